@@ -16,7 +16,7 @@ Definition patch_commit (w : world) (n : name) : option oid :=
    undo / redo / reset (restore recorded commits, see C08_restore_reuses_commits) and repair *)
 Definition manip (c : cmd) : bool :=
   match c with
-  | CNew _ _ _ | CEdit _ _ _ | CUndo _ _ | CRedo _ _ | CReset _ _ _ | CRepair
+  | CNew _ _ _ | CEdit _ _ _ | CSquash _ _ _ _ | CUndo _ _ | CRedo _ _ | CReset _ _ _ | CRepair
   | GEdit _ _ | GCommit _ _ | GAmend _ _ | GResetHard _ | GMerge _ => false
   | _ => true
   end.
